@@ -97,7 +97,7 @@ def generate(seed, tier, index, kf):
                 ops.append({"s": s, "op": "raw_in_idle", "line": r.choice(IDLE_NOISE)})
             ops.append({"s": s, "op": "done"})
         elif x < 0.96:
-            ops.append({"s": s, "op": "raw", "line": r.choice(("FETCH 1 (BODY[", "XYZZY \"a\\\"b\"", "LIST \"\" \"a\\\"*\"", 'STATUS "q\\"uote" (MESSAGES)', "SEARCH HEADER \"X\\\"Y\" \"\"", "LOGIN \"a\\\\b\" x", "ID (\"k\" \"v\\\"w\")")), "mutates": False})
+            ops.append({"s": s, "op": "raw", "line": r.choice(("UID COPY 99999 inbox", "UID MOVE 99999 work", "UID COPY 99998:99999 \"work\"", "FETCH 1 (BODY[", "XYZZY \"a\\\"b\"", "LIST \"\" \"a\\\"*\"", 'STATUS "q\\"uote" (MESSAGES)', "SEARCH HEADER \"X\\\"Y\" \"\"", "LOGIN \"a\\\\b\" x", "ID (\"k\" \"v\\\"w\")")), "mutates": False})
         else:
             ops.append({"actor": "agent", "op": "deliver", "mbox": r.choice(["inbox", "work"]), "count": 1, "unseen": True, "shape": r.choice(corpus.SHAPES)})
     mode = "concurrent" if r.random() < 0.5 else "sequential"
